@@ -36,6 +36,17 @@ var c19Points = []string{"emit.call", "send.lock", "send.send", "expand.enter", 
 
 func c19pick(rng *rand.Rand, xs ...int) int { return xs[rng.Intn(len(xs))] }
 
+// c19TimeoutTok: t = a blocking timeout of 3 ms, f = none (0), n / N = none, spelled as a negative duration (-1 ns / -1 s)
+func c19TimeoutTok(rng *rand.Rand, strat string, timeout bool) string {
+	if timeout {
+		return "t"
+	}
+	if strat == "block" && rng.Intn(3) == 0 {
+		return []string{"n", "N"}[rng.Intn(2)]
+	}
+	return "f"
+}
+
 // RaceCase: the free-running rounds are also executed under the race detector (./check, race pass)
 func (c19) RaceCase(c Case) bool { return len(c.Ops) == 1 && c.Ops[0][0] == "free" }
 
@@ -47,6 +58,9 @@ func (c19) Gen(rng *rand.Rand, tier string, idx int) Case {
 	}
 	capn := c19pick(rng, 1, 1, 2, 2, 3, 4)
 	maxc := c19pick(rng, 0, capn, capn+1, capn+2, 2*capn+1, 10)
+	if capn >= 2 && rng.Intn(8) == 0 {
+		maxc = capn - 1 // a ceiling below the initial size: the buffer never grows (and the ceiling is not "no ceiling")
+	}
 	grow := [][2]int{{3, 2}, {2, 1}, {5, 4}, {1, 1}, {0, 1}, {3, 1}}[rng.Intn(6)]
 	mininc := c19pick(rng, 0, 1, 1, 2, 3)
 	thr := [][2]int{{1, 2}, {3, 4}, {1, 1}, {0, 1}, {9, 10}, {1, 4}}[rng.Intn(6)]
@@ -60,7 +74,7 @@ func (c19) Gen(rng *rand.Rand, tier string, idx int) Case {
 	}
 	c.Cfg = [][]string{{"strat", strat}, {"cap", itoa(int64(capn))}, {"max", itoa(int64(maxc))},
 		{"grow", itoa(int64(grow[0])), itoa(int64(grow[1]))}, {"mininc", itoa(int64(mininc))},
-		{"thr", itoa(int64(thr[0])), itoa(int64(thr[1]))}, {"timeout", btok(timeout)},
+		{"thr", itoa(int64(thr[0])), itoa(int64(thr[1]))}, {"timeout", c19TimeoutTok(rng, strat, timeout)},
 		{"nprod", itoa(int64(nprod))}, {"rows", itoa(int64(rows))}}
 	c.Stat = append(c.Stat, "strat-"+strat, fmt.Sprintf("nprod-%d", nprod), fmt.Sprintf("cap-%d", capn))
 	if idx%40 == 39 {
@@ -443,6 +457,11 @@ func c19perf(c Case) (types.PerformanceConfig, bool) {
 	perf.OverflowConfig.BlockTimeout = 0
 	if timeout {
 		perf.OverflowConfig.BlockTimeout = 3 * time.Millisecond
+	}
+	if v := c19cfgGet(c, "timeout"); len(v) > 0 && v[0] == "n" {
+		perf.OverflowConfig.BlockTimeout = -1
+	} else if len(v) > 0 && v[0] == "N" {
+		perf.OverflowConfig.BlockTimeout = -time.Second
 	}
 	gn, gd := c19cfgInt2(c, "grow")
 	perf.OverflowConfig.ExpansionConfig.GrowthFactor = 0
